@@ -23,9 +23,9 @@ import (
 	"github.com/sassoftware/relic/v8/lib/certloader"
 	"github.com/sassoftware/relic/v8/lib/magic"
 	"github.com/sassoftware/relic/v8/lib/signxap"
+	"github.com/sassoftware/relic/v8/lib/zipslicer"
 	"github.com/sassoftware/relic/v8/signers"
 	"github.com/sassoftware/relic/v8/signers/pecoff"
-	"github.com/sassoftware/relic/v8/signers/zipbased"
 )
 
 // Sign Silverlight / legacy Windows Phone apps
@@ -34,7 +34,7 @@ var XapSigner = &signers.Signer{
 	Name:      "xap",
 	Magic:     magic.FileTypeXAP,
 	CertTypes: signers.CertTypeX509,
-	Transform: zipbased.Transform,
+	Transform: transform,
 	Sign:      sign,
 	Verify:    verify,
 }
@@ -42,6 +42,34 @@ var XapSigner = &signers.Signer{
 func init() {
 	pecoff.AddOpusFlags(XapSigner)
 	signers.Register(XapSigner)
+}
+
+type xapTransformer struct {
+	f *os.File
+}
+
+func transform(f *os.File, opts signers.SignOpts) (signers.Transformer, error) {
+	return &xapTransformer{f}, nil
+}
+
+// Like the generic zip transform, but an already signed XAP carries its
+// signature after the zip end-of-directory record, which must be skipped when
+// locating the directory so that the file can be signed again.
+func (t *xapTransformer) GetReader() (io.Reader, error) {
+	st, err := t.f.Stat()
+	if err != nil {
+		return nil, err
+	}
+	trailer := signxap.TrailerSize(t.f, st.Size())
+	r, w := io.Pipe()
+	go func() {
+		_ = w.CloseWithError(zipslicer.ZipToTarTrailer(t.f, w, trailer))
+	}()
+	return r, nil
+}
+
+func (t *xapTransformer) Apply(dest, mimeType string, result io.Reader) error {
+	return signers.ApplyBinPatch(t.f, dest, result)
 }
 
 func sign(r io.Reader, cert *certloader.Certificate, opts signers.SignOpts) ([]byte, error) {
